@@ -103,6 +103,7 @@ class GotranCCodePrinter(C99CodePrinter):
 
 class CCodeGenerator(CodeGenerator):
     variable_prefix = "const double "
+    missing_variables_argument = "const double *__restrict missing_variables"
     # A local variable with the name of a <math.h> function or constant that the printer emits
     # would hide it, and the generated unit would not compile
     reserved_names = CodeGenerator.reserved_names | frozenset(
